@@ -120,7 +120,7 @@ pub fn build(
             resolvee_path,
             visibility,
             &vftable_functions,
-        );
+        )?;
 
         let Some(vftable_type) = vftable_item else {
             return Ok(Some((None, None)));
@@ -221,23 +221,33 @@ fn build_type(
     resolvee_path: &ItemPath,
     visibility: Visibility,
     functions: &[Function],
-) -> Option<ItemDefinition> {
-    let name = resolvee_path.last()?;
+) -> anyhow::Result<Option<ItemDefinition>> {
+    let Some(name) = resolvee_path.last() else {
+        return Ok(None);
+    };
+    let Some(parent) = resolvee_path.parent() else {
+        return Ok(None);
+    };
 
-    let resolvee_vtable_path = resolvee_path
-        .parent()?
-        .join(format!("{}Vftable", name.as_str()).into());
+    let resolvee_vtable_path = parent.join(format!("{}Vftable", name.as_str()).into());
 
     let regions: Vec<_> = functions
         .iter()
         .map(|f| function_to_region(resolvee_path, f))
         .collect();
 
-    Some(ItemDefinition {
+    // One pointer per function; with an absurd pointer size the sum does not fit.
+    let size = regions
+        .iter()
+        .map(|r| r.size(type_registry).unwrap())
+        .try_fold(0usize, |total, size| total.checked_add(size))
+        .with_context(|| format!("the vftable of `{resolvee_path}` is too large"))?;
+
+    Ok(Some(ItemDefinition {
         visibility,
         path: resolvee_vtable_path.clone(),
         state: ItemState::Resolved(ItemStateResolved {
-            size: regions.iter().map(|r| r.size(type_registry).unwrap()).sum(),
+            size,
             alignment: type_registry.pointer_size(),
             inner: TypeDefinition {
                 regions,
@@ -253,7 +263,7 @@ fn build_type(
             .into(),
         }),
         category: ItemCategory::Defined,
-    })
+    }))
 }
 
 /// Given a function, create a region representing it
